@@ -624,7 +624,19 @@ static void pubfile_followups(KSI_PublicationsFile *pf) {
 		pr = NULL; CALL(); NOTE(KSI_PublicationsFile_getPublicationDataByTime(pf, t, &pr)); NOTE(pr != NULL);
 		pr = NULL; CALL(); NOTE(KSI_PublicationsFile_getNearestPublication(pf, t, &pr)); NOTE(pr != NULL); if (pr) pubrec_touch(pr); KSI_PublicationRecord_free(pr);
 		pr = NULL; CALL(); NOTE(KSI_PublicationsFile_getLatestPublication(pf, t, &pr)); NOTE(pr != NULL);
+		pr = NULL; CALL(); NOTE(KSI_PublicationsFile_findPublicationByTime(pf, t, &pr)); NOTE(pr != NULL); KSI_PublicationRecord_free(pr);
 		KSI_Integer_free(t);
+	}
+	{
+		/* the record-based searches with the time (and the record) of the file's own last record: a file may carry a record more than once */
+		KSI_PublicationRecord *lastrec = NULL, *found = NULL;
+		KSI_PublicationData *lpd = NULL;
+		KSI_Integer *lt = NULL;
+		if (pubs != NULL && KSI_PublicationRecordList_length(pubs) > 0) KSI_PublicationRecordList_elementAt(pubs, KSI_PublicationRecordList_length(pubs) - 1, &lastrec);
+		if (lastrec != NULL && KSI_PublicationRecord_getPublishedData(lastrec, &lpd) == KSI_OK && lpd != NULL && KSI_PublicationData_getTime(lpd, &lt) == KSI_OK && lt != NULL) {
+			CALL(); NOTE(KSI_PublicationsFile_findPublicationByTime(pf, lt, &found)); NOTE(found != NULL); KSI_PublicationRecord_free(found); found = NULL;
+			CALL(); NOTE(KSI_PublicationsFile_findPublication(pf, lastrec, &found)); NOTE(found != NULL); KSI_PublicationRecord_free(found);
+		}
 	}
 	pr = NULL; CALL(); NOTE(KSI_PublicationsFile_getLatestPublication(pf, NULL, &pr)); if (pr) pubrec_touch(pr);
 	if (pr != NULL) {
